@@ -17,8 +17,8 @@ RULE = ("Item trees over synthetic stack-item types (unwrap result: None / singl
         "(item, next_inner) / bare next_inner), generated recursively by Hypothesis so that replacements and insertions "
         "bring sub-trees whose frames have hooks of their own. Balanced space: 2-4 wrappers side by side, each unwrapping directly to 1-3 frames (all equally deep; any simple hook or single-frame replacement; in a third of them an irreducible item may end any wrapper, not only the last - then, if no frame after it has a hook, the frames outward of it are compared as usual and of the rest only conservation is asserted: every frame and irreducible item still in Stack.frames or Stack.leaf). Core space: right-nested trees with single-item insertions "
         "(any hook anywhere). Order space: arbitrary nestings, None elements, multi-item and raw-frame insertions, with only "
-        "None/next_inner/insert hooks. Plus the fixpoint-guard family: self-returning item, 2-cycle, wrapper chains of "
-        "length 0..90 (must succeed) and >= 150 (must end with the 'unwrapped more than 100 times' error). Executed on "
+        "None/next_inner/insert hooks. Plus the fixpoint-guard family: self-returning item, 2-cycle, cycles that branch (the item itself twice as tuple / list / iterator; a 2-cycle with a doubling member), wrapper chains of "
+        "length 0..90 (must succeed) and >= 150 (must end with the 'unwrapped more than 100 times' error). A hook that answers with a list hands out its own stored list object, which must come back unchanged, and every fault-free tree is extracted a second time with the same result. Executed on "
         "CPython 3.9-3.12. Oracle: reference scope model (frames and leaf equal, error is None). Non-trivial: >= 1 frame that "
         "appears in the result has a non-None elaborate result (guard family: chain length >= 2 or a cycle); distinct = distinct IR.")
 ASSUMPTIONS = [
@@ -426,6 +426,10 @@ def compare(case, ws, interps, out):
                                                                        ",".join(sorted(info))), "interp": interp})
         elif not res["root_ok"] or res["warnings"]:
             viols.append({"desc": "root/warnings on %s: %r" % (interp, res), "interp": interp})
+        elif res.get("hook_result_modified") or res.get("second_extraction_differs"):
+            viols.append({"desc": "a hook's own result object was modified / a second extraction of the same tree differs on %s: "
+                                  "%r %r" % (interp, res.get("hook_result_modified"), res.get("second_extraction_differs")),
+                          "interp": interp})
     nontrivial = any(case["elab"].get(str(i), ["none"])[0] != "none" for i in frames)
     classes = set(info) | tree_classes(case) | {"space." + case["space"]}
     out.note_case(case, nontrivial, classes=sorted(classes), n_eval=len(interps),
